@@ -527,3 +527,80 @@ pub fn reader_template(rng: &mut Rng, v: &mut Vec<Cmd>) {
         v.insert((pos + i).min(v.len()), c);
     }
 }
+
+/// Arithmetic-heavy prefix: multi-limb integers at the 2^32 limb boundary, fractions with
+/// common factors, negatives; leaves the results on stack 3 (and prints some as text).
+pub fn arith_template(rng: &mut Rng, v: &mut Vec<Cmd>) {
+    let mut ins: Vec<Cmd> = Vec::new();
+    let push = |ins: &mut Vec<Cmd>, val: usize| {
+        let (h, d) = factor_pair(val);
+        ins.push(Cmd::new(0, h, d, RArea::Nil));
+    };
+    const SEEDS: [usize; 12] = [65536, 65535, 65537, 46341, 32768, 4096, 255, 1000, 999, 77, 6, 2];
+    for _ in 0..rng.usize(2, 5) {
+        match rng.below(7) {
+            0 => {
+                // 2^32 and neighbours
+                push(&mut ins, 65536);
+                push(&mut ins, 65536);
+                ins.push(Cmd::new(2, 2, 3, RArea::Nil));
+                if rng.chance(60) {
+                    // +-1
+                    push(&mut ins, 1);
+                    if rng.chance(50) {
+                        ins.push(Cmd::new(3, 1, rng.usize(4, 7), RArea::Nil));
+                    }
+                    ins.push(Cmd::new(1, 2, 3, RArea::Nil));
+                }
+            }
+            1 => {
+                // product of k seeds
+                let k = rng.usize(2, 4);
+                for _ in 0..k {
+                    push(&mut ins, *rng.pick(&SEEDS));
+                }
+                ins.push(Cmd::new(2, k, 3, RArea::Nil));
+            }
+            2 => {
+                // a fraction: a * (1/b), operands restored on the stack
+                push(&mut ins, *rng.pick(&SEEDS));
+                push(&mut ins, *rng.pick(&SEEDS));
+                ins.push(Cmd::new(4, 1, rng.usize(4, 7), RArea::Nil));
+                ins.push(Cmd::new(2, 2, 3, RArea::Nil));
+            }
+            3 => {
+                // negate the top two and add
+                ins.push(Cmd::new(3, rng.usize(1, 2), 3, RArea::Nil));
+                ins.push(Cmd::new(1, 2, 3, RArea::Nil));
+            }
+            4 => {
+                // square the top (duplicate, multiply)
+                ins.push(Cmd::new(5, 1, 3, RArea::Nil));
+                ins.push(Cmd::new(2, 2, 3, RArea::Nil));
+            }
+            5 => {
+                // reciprocal sum: 1/a + 1/b
+                push(&mut ins, *rng.pick(&SEEDS));
+                push(&mut ins, *rng.pick(&SEEDS));
+                ins.push(Cmd::new(4, 2, rng.usize(4, 7), RArea::Nil));
+                ins.push(Cmd::new(1, 2, 3, RArea::Nil));
+            }
+            _ => {
+                // compare the top against a count through a `?`/`!` (value stays: duplicate first)
+                ins.push(Cmd::new(5, 1, 3, RArea::Nil));
+                let t = rng.below(2) as u8;
+                ins.push(Cmd::new(0, rng.usize(1, 3), rng.usize(0, 9), RArea::Node(0, Box::new(RArea::Nil), Box::new(RArea::Node(t, Box::new(RArea::Nil), Box::new(RArea::Nil))))));
+            }
+        }
+    }
+    // show something: negated copies print as text on stdout/stderr
+    for _ in 0..rng.usize(0, 2) {
+        ins.push(Cmd::new(5, 1, 3, RArea::Nil));
+        ins.push(Cmd::new(3, 1, rng.usize(1, 2), RArea::Nil));
+        ins.push(Cmd::new(1, 1, rng.usize(4, 7), RArea::Nil));
+    }
+    let pos = if rng.chance(70) { 0 } else { rng.usize(0, v.len()) };
+    for (i, c) in ins.into_iter().enumerate() {
+        v.insert((pos + i).min(v.len()), c);
+    }
+}
